@@ -634,7 +634,7 @@ def run(ctx: Ctx):
     from vf.prove import prove
     # deductive part (specs/packing.py): solve_knapsack's DP (distinct indices, objective = sum of values, weight test at every
     # OPTIMAL return, DP value = the knapsack recursion KN, integer data run unscaled), _to_int_capacity, check_non_negative
-    prove(ctx, ["specs.packing"], "C16", lemma_groups=["knap"])
+    prove(ctx, ["specs.packing"], "C16", lemma_groups=["knap", "binp"])
     ctx.assumptions.append(
         "C16 proof: solve_knapsack is proved to return a selection whose value sum equals KN(vals, int_weights, n, int_capacity) (the "
         "textbook recursion) with integer weight sum <= int_capacity; that KN is the maximum over all subsets within capacity (Bellman) "
